@@ -450,6 +450,48 @@ theorem item_independent (cfg : Cfg ℝ) (st : State ℝ) (dt gyro acc dt' gyro'
     simp only [framesOf, Tens.vec, hdt, hg, ha, Option.map_none]
   rw [this]
 
+/-! ## 6. error paths are atomic (hardening pass 2) -/
+
+/-- **A call that raises changes nothing.** -/
+theorem failed_call_atomic (cfg : Cfg ℝ) (st : State ℝ) (q : CallReq ℝ) (h : q.ok = false) :
+    callE cfg st q = (.error "raise", st) := by
+  simp only [callE, h, Bool.false_eq_true, if_false]
+
+/-- a successful request is the plain call -/
+theorem ok_call (cfg : Cfg ℝ) (st : State ℝ) (q : CallReq ℝ) (h : q.ok = true) :
+    callE cfg st q = (.ok (call cfg st q.init q.fr q.F), (call cfg st q.init q.fr q.F).st) := by
+  simp only [callE, h, if_true]
+
+/-- **Histories with failures.** The caller catches every exception and goes on (retries, feeds the next chunk): the
+successful results and the final carried state are exactly those of the history WITHOUT the failed calls — for every
+sequence of requests, every position and number of failures. -/
+theorem failures_invisible (cfg : Cfg ℝ) (qs : List (CallReq ℝ)) :
+    ∀ st : State ℝ,
+      okResults (runReqs cfg st qs).1 = okResults (runReqs cfg st (qs.filter (·.ok))).1 ∧
+      (runReqs cfg st qs).2 = (runReqs cfg st (qs.filter (·.ok))).2 := by
+  induction qs with
+  | nil => intro st; exact ⟨rfl, rfl⟩
+  | cons q qs ih =>
+    intro st
+    by_cases h : q.ok = true
+    · have hf : (q :: qs).filter (·.ok) = q :: qs.filter (·.ok) := by simp [List.filter, h]
+      rw [hf]
+      simp only [runReqs, ok_call cfg st q h, okResults]
+      obtain ⟨h1, h2⟩ := ih (call cfg st q.init q.fr q.F).st
+      exact ⟨by rw [h1], h2⟩
+    · have h' : q.ok = false := by simpa using h
+      have hf : (q :: qs).filter (·.ok) = qs.filter (·.ok) := by simp [List.filter, h']
+      rw [hf]
+      simp only [runReqs, failed_call_atomic cfg st q h', okResults]
+      exact ih st
+
+/-- retry after a failure = the call without the failure (the chunk is integrated once, not twice) -/
+theorem retry_after_failure (cfg : Cfg ℝ) (st : State ℝ) (q : CallReq ℝ) (h : q.ok = true) :
+    okResults (runReqs cfg st [{ q with ok := false }, q]).1 = okResults (runReqs cfg st [q]).1 ∧
+    (runReqs cfg st [{ q with ok := false }, q]).2 = (runReqs cfg st [q]).2 := by
+  have := failures_invisible cfg [{ q with ok := false }, q] st
+  simpa [List.filter, h] using this
+
 /-! ## non-vacuity of the hypotheses -/
 
 example : (⟨0.6, 0, 0, 0.8⟩ : Quat ℝ).normSq = 1 := by lie_unfold; norm_num
